@@ -331,7 +331,11 @@ def main(argv=None):
     except Exception:
         traceback.print_exc()
         broken.append("translator tie: harness/pytie.py cannot be imported")
-    tie_obl = audit_theorems(tie["audit"]) if tie else []
+    if tie:  # one or several Lean modules / audit files
+        tie = dict(tie)
+        tie["props"] = [tie["props"]] if isinstance(tie["props"], str) else list(tie["props"])
+        tie["audit"] = [tie["audit"]] if isinstance(tie["audit"], str) else list(tie["audit"])
+    tie_obl = [t for a in tie["audit"] for t in audit_theorems(a)] if tie else []
     translate_info = {}
     closure_files = []
 
@@ -370,17 +374,17 @@ def main(argv=None):
                     broken.append("%s:%s" % (m.group(1), m.group(2)))
             tie_ok = False
             if tie:
-                tie_ok, tout, tcmd, _dt = lake_build([tie["props"], "PysamlModel.Model.PyEnc"])
+                tie_ok, tout, tcmd, _dt = lake_build(tie["props"] + ["PysamlModel.Model.PyEnc"])
                 checker_cmds.append(tcmd)
                 if not tie_ok:
                     log(tout[-4000:])
                     build_log += "\n" + tout
                     broken.append("lake build %s failed (the regenerated term of %s no longer refines the model function)" % (
-                        tie["props"], "/".join(tie["functions"])))
+                        " ".join(tie["props"]), "/".join(tie["functions"])))
                     for m in re.finditer(r"^error: (\S+\.lean):(\d+):(\d+)", tout, re.M):
                         broken.append("%s:%s" % (m.group(1), m.group(2)))
             # 3. audit
-            hits, closure_files = grep_forbidden([mod.LEAN_PROPS] + ([tie["props"]] if tie else []))
+            hits, closure_files = grep_forbidden([mod.LEAN_PROPS] + (tie["props"] if tie else []))
             if hits:
                 broken.append("forbidden tokens: " + "; ".join(hits[:5]))
             if ok:
@@ -395,19 +399,22 @@ def main(argv=None):
                     elif not set(axioms[th]) <= ALLOWED_AXIOMS:
                         broken.append("theorem %s uses axioms %s" % (th, axioms[th]))
                 if tie and tie_ok:
-                    taok, taxioms, taout, tacmd = run_audit(tie["audit"])
-                    checker_cmds.append(tacmd)
+                    taxioms = {}
+                    for af in tie["audit"]:
+                        taok, tax1, taout, tacmd = run_audit(af)
+                        checker_cmds.append(tacmd)
+                        taxioms.update(tax1)
+                        if not taok:
+                            log(taout[-3000:])
+                            broken.append("tie audit file failed to elaborate")
                     axioms.update(taxioms)
-                    if not taok:
-                        log(taout[-3000:])
-                        broken.append("tie audit file failed to elaborate")
                     for th in tie_obl:
                         if th not in taxioms:
                             broken.append("theorem not found by audit: " + th)
                         elif not set(taxioms[th]) <= ALLOWED_AXIOMS:
                             broken.append("theorem %s uses axioms %s" % (th, taxioms[th]))
                 if tier == "thorough" and not broken:
-                    cok, cout, ccmd = leanchecker([mod.LEAN_PROPS] + ([tie["props"]] if tie else []))
+                    cok, cout, ccmd = leanchecker([mod.LEAN_PROPS] + (tie["props"] if tie else []))
                     checker_cmds.append(ccmd)
                     if not cok:
                         log(cout)
